@@ -61,6 +61,132 @@ Section CallAccept.
   Qed.
 End CallAccept.
 
+(* ---- padding of dynamic values *)
+Lemma pad_len_range c : 0 <= pad_len c < 32.
+Proof. unfold pad_len. apply Z.mod_pos_bound. lia. Qed.
+
+Lemma pad_len_fills c : (len c + pad_len c) mod 32 = 0.
+Proof.
+  unfold pad_len.
+  assert (Hc : 0 <= len c mod 32 < 32) by (apply Z.mod_pos_bound; lia).
+  destruct (Z.eq_dec (len c mod 32) 0) as [E|E].
+  - rewrite E. replace (32 - 0) with 32 by lia. rewrite Z.mod_same by lia. rewrite Z.add_0_r. exact E.
+  - rewrite (Z.mod_small (32 - len c mod 32)) by lia.
+    rewrite (Z.div_mod (len c) 32) at 1 by lia.
+    replace (32 * (len c / 32) + len c mod 32 + (32 - len c mod 32)) with ((len c / 32 + 1) * 32) by lia.
+    apply Z.mod_mul. lia.
+Qed.
+
+(* the packer writes exactly one tail for a content: length word, content, zeros *)
+Lemma pack_dyn_shape t c : t = TString \/ t = TBytes -> pack_val t (VBytes c) = Some (dyn_tail c).
+Proof. intros [-> | ->]; reflexivity. Qed.
+
+Lemma pack_val_dyn_inv t v p : t = TString \/ t = TBytes -> pack_val t v = Some p -> exists c, v = VBytes c /\ p = dyn_tail c.
+Proof.
+  intros [-> | ->] E; cbn in E; destruct v; try discriminate; injection E as <-; eexists; split; reflexivity.
+Qed.
+
+Lemma pack_items_padded tys : forall vs items, pack_items tys vs = Some items ->
+  forall i t v it, nth_error tys i = Some t -> nth_error vs i = Some v -> nth_error items i = Some it -> padded_item t v it.
+Proof.
+  induction tys as [|t0 tr IH]; intros vs items E i t v it Ht Hv Hi.
+  - destruct i; discriminate.
+  - destruct vs as [|v0 vr]; [discriminate|]. cbn [pack_items] in E.
+    destruct (pack_val t0 v0) as [p|] eqn:Ep; [|discriminate].
+    destruct (pack_items tr vr) as [ps|] eqn:Eps; [|discriminate].
+    injection E as <-.
+    destruct i as [|i].
+    + cbn in Ht, Hv, Hi. injection Ht as <-. injection Hv as <-. injection Hi as <-.
+      unfold padded_item.
+      destruct t0; try exact I.
+      * destruct (pack_val_dyn_inv TString v0 p (or_introl eq_refl) Ep) as [c [-> ->]]. exists c. split; reflexivity.
+      * destruct (pack_val_dyn_inv TBytes v0 p (or_intror eq_refl) Ep) as [c [-> ->]]. exists c. split; reflexivity.
+    + cbn in Ht, Hv, Hi. exact (IH vr ps Eps i t v it Ht Hv Hi).
+Qed.
+
+(* the tails stand behind the head words, one after the other in the order of the arguments *)
+Lemma layout_go_tails items : forall off, snd (layout_go items off) = tails_of items.
+Proof.
+  induction items as [|[[|] p] r IH]; intros off; cbn [layout_go tails_of snd]; [reflexivity| |].
+  - rewrite IH. reflexivity.
+  - apply IH.
+Qed.
+Lemma layout_tails items : exists heads, layout items = heads ++ tails_of items.
+Proof. unfold layout. eexists. rewrite layout_go_tails. reflexivity. Qed.
+
+(* canonical call data ARE the packing of the values they decode to: selector, head words, then the tails, and the
+   tail of every string / bytes argument is its length word, its content and zeros up to the next word boundary *)
+Theorem canonical_dyn_padding_zero sel tys input :
+  tys <> [] -> is_canonical sel tys input ->
+  exists vs items heads,
+    unpack_method sel tys input = UOk vs /\ pack_items tys vs = Some items /\
+    input = sel ++ heads ++ tails_of items /\
+    forall i t v it, nth_error tys i = Some t -> nth_error vs i = Some v -> nth_error items i = Some it -> padded_item t v it.
+Proof.
+  intros Hne Hc. unfold is_canonical, repack in Hc.
+  destruct tys as [|t0 tr]; [contradiction|].
+  destruct (unpack_method sel (t0 :: tr) input) as [vs| |] eqn:Eu; try discriminate.
+  unfold pack_values in Hc.
+  destruct (pack_items (t0 :: tr) vs) as [items|] eqn:Ei; cbn [option_map] in Hc; [|discriminate].
+  injection Hc as Hin.
+  destruct (layout_tails items) as [heads Hl].
+  exists vs, items, heads. repeat split.
+  - exact Ei.
+  - rewrite <- Hl. symmetry. exact Hin.
+  - exact (pack_items_padded (t0 :: tr) vs items Ei).
+Qed.
+
+(* ... and so for the stored call data of every accepted call *)
+Theorem accepted_call_padding_zero (H : bytes -> bytes) (H_len : forall x, length (H x) = 32%nat)
+  sel tys static_ok (x s : AB) :
+  tys <> [] -> ab_wf x ->
+  accept_call H sel tys static_ok x = Some s ->
+  (H (ab_preimage H x) = H (ab_preimage H s) -> ab_preimage H x = ab_preimage H s) ->
+  (H (ab_data (body x)) = H (ab_data (body s)) -> ab_data (body x) = ab_data (body s)) ->
+  exists vs items heads,
+    unpack_method sel tys (ab_data (body s)) = UOk vs /\ pack_items tys vs = Some items /\
+    ab_data (body s) = sel ++ heads ++ tails_of items /\
+    forall i t v it, nth_error tys i = Some t -> nth_error vs i = Some v -> nth_error items i = Some it -> padded_item t v it.
+Proof.
+  intros Hne Hwf Hacc Hpre Hdata.
+  destruct (call_data_canonical H H_len sel tys static_ok x s Hwf Hacc Hpre Hdata) as [_ Hc].
+  exact (canonical_dyn_padding_zero sel tys _ Hne Hc).
+Qed.
+
+(* the same for the call shape of htlc.Unlock(hash id, bytes preimage), all bytes written out *)
+Local Opaque word256 lpad32 rpad.
+Theorem canonical_unlock_shape sel input :
+  is_canonical sel [THash; TBytes] input ->
+  exists id pre, input = sel ++ lpad32 id ++ word256 64 ++ word256 (len pre) ++ pre ++ repeat 0 (Z.to_nat (pad_len pre)).
+Proof.
+  intros Hc. unfold is_canonical, repack in Hc.
+  destruct (unpack_method sel [THash; TBytes] input) as [vs| |]; try discriminate.
+  unfold pack_values in Hc.
+  destruct vs as [|v0 [|v1 [|v2 vr]]].
+  1: discriminate.
+  1: { cbn [pack_items pack_val option_map] in Hc. destruct v0; discriminate. }
+  2: { cbn [pack_items pack_val option_map] in Hc. destruct v0; try discriminate. destruct v1; discriminate. }
+  cbn [pack_items pack_val option_map requires_prefix] in Hc.
+  destruct v0 as [| |id|]; try discriminate. destruct v1 as [| |pre|]; try discriminate.
+  cbn [option_map] in Hc. injection Hc as Hin.
+  exists id, pre. rewrite <- Hin. unfold layout. cbn [length layout_go fst snd].
+  replace (32 * Z.of_nat 2) with 64 by reflexivity.
+  Local Transparent rpad. unfold rpad, pad_len. rewrite !app_nil_r, <- !app_assoc. reflexivity.
+Qed.
+Local Transparent word256 lpad32.
+
+(* a padding-reproducing packer: its tail has the same length as the canonical one, differs from it exactly when
+   the bytes it is given are not zeros, and is decoded to the same content (nothing reads the padding: see the
+   example in Props/C13.v) *)
+Lemma dyn_tail_with_zero c : dyn_tail_with (fun _ => []) c = dyn_tail c.
+Proof.
+  unfold dyn_tail_with, dyn_tail. cbn [app]. do 2 f_equal.
+  pose proof (pad_len_range c) as Hr.
+  replace 32%nat with (Z.to_nat (pad_len c) + (32 - Z.to_nat (pad_len c)))%nat by lia.
+  rewrite repeat_app, firstn_app, repeat_length, Nat.sub_diag. cbn [firstn]. rewrite app_nil_r.
+  rewrite firstn_all2 by (rewrite repeat_length; lia). reflexivity.
+Qed.
+
 (* non-vacuity: liquidity.SetTokenTuple(string[],uint32[],uint32[],uint256[]) with four empty lists.
    The canonical packing has four offsets and four length words; the encoding whose four offsets point at one
    shared zero word decodes to the same values and is not canonical. *)
